@@ -52,6 +52,15 @@ let handle = function
     let req (i : BinNums.coq_N) : BinNums.coq_N = n_of_int (1 + ((int_of_n i) * 7919) mod 2039) in
     let (mo, oc) = PartialWriter.pw_run (n_of_int 11) kk lit_h req d in
     if oc = Emitter.EClean && mo = spec then hex_of_bytes spec else "MODEL-SPLIT emit_lit machine /= specification"
+  | ["litgen"; fixed; k; data; reqs] ->
+    (* the two literal writers as machines, read with the harness's own request sizes (cycled) *)
+    let d = bytes_of_hex data in
+    let rl = if reqs = "_" || reqs = "" then [] else Stdlib.List.map int_of_string (Stdlib.String.split_on_char ',' reqs) in
+    let ra = Array.of_list rl in
+    let req (i : BinNums.coq_N) : BinNums.coq_N = if Array.length ra = 0 then n_of_int 65536 else n_of_int (Stdlib.max 1 (Stdlib.min 65536 ra.((int_of_n i) mod Array.length ra))) in
+    let (mo, oc) = if fixed = "1" then FixedWriter.fw_run (n_of_int 11) lit_h req d else PartialWriter.pw_run (n_of_int 11) (n_of_int (int_of_string k)) lit_h req d in
+    let spec = if fixed = "1" then Framing.emit_fixed (n_of_int 11) lit_h d else Framing.emit_partial (n_of_int 11) (n_of_int (int_of_string k)) lit_h d in
+    if oc = Emitter.EClean && mo = spec then hex_of_bytes spec else "MODEL-SPLIT litgen machine /= specification"
   | ["emit_lit_fixed"; _; data] ->
     hex_of_bytes (Framing.emit_fixed (n_of_int 11) lit_h (bytes_of_hex data))
   | ["emit_lit_comp"; k; data] ->
